@@ -223,6 +223,8 @@ class BaseVersion(object):
 
     def _update_full_version(self):
         # type: () -> None
+        if self.__upstream_version is None:
+            raise ValueError("a version needs an upstream version")
         version = ""
         if self.__epoch is not None:
             version += self.__epoch + ":"
